@@ -10,34 +10,100 @@ Oracle/search (same sweep): random request histories on the REAL generator — s
         built, never simulated copy; deep snapshot of every circuit identical before/after; simulation traces identical
         with and without generation; every cache hit equal to recomputation; module text of a block identical
         whatever object the request started from."""
-import ast, os, random, re, json
+import ast, os, random, re, json, sys
 import common
 from common import REPO, quiet
 from props import c19_lib as L
 
 EXPECTED_GLOBALS = {'wire_names_cache_obj', 'wire_names_cache'}
 EXPECTED_SELF = {'obj', 'ast_tree', 'inlinablePrimitives', 'providingBody', 'created_structures'}
-EXPECTED_TRANSPILER_CLASS_ATTRS = {('FlattenOperators', 'ic')}       # dead code at the pinned commit (call commented out)
 
 
 # ------------------------------------------------------------------ (a) the state the real code keeps
-def scan_state():
-    """fail-closed: module-level variables / `global` statements of rtl_generation.py, attributes VerilogGenerator
-    assigns on self, class-level attributes and module-level variables of the transpiler."""
+IMMUTABLE_CALLS = {'frozenset', 'tuple', 'int', 'str', 'float', 'bool', 'bytes', 'len', 'range'}
+
+
+def immutable_expr(n):
+    """the value can never change once bound: literals, names of classes / functions / constants, tuples and frozensets of such,
+    arithmetic on such.  Lists, dicts, sets, comprehensions, calls that build objects are NOT."""
+    if isinstance(n, ast.Constant) or isinstance(n, (ast.Name, ast.Attribute, ast.JoinedStr)):
+        return True
+    if isinstance(n, ast.Tuple):
+        return all(immutable_expr(e) for e in n.elts)
+    if isinstance(n, ast.UnaryOp):
+        return immutable_expr(n.operand)
+    if isinstance(n, ast.BinOp):
+        return immutable_expr(n.left) and immutable_expr(n.right)
+    if isinstance(n, ast.IfExp):
+        return immutable_expr(n.body) and immutable_expr(n.orelse)
+    if isinstance(n, ast.Call) and isinstance(n.func, ast.Name) and n.func.id in IMMUTABLE_CALLS and not n.keywords:
+        return all(immutable_expr(x) or (isinstance(x, (ast.List, ast.Set, ast.Tuple)) and all(immutable_expr(e) for e in x.elts)) for x in n.args)
+    return False
+
+
+def scan_file(rel, allowed_globals=()):
+    """process-lifetime MUTABLE state a source file can keep (a constant table is not state):
+      * module-level names bound to something mutable, or re-bound later (`global` in a function, second module-level assignment),
+        other than the ones the model has;
+      * class attributes bound to something mutable, or re-bound through the class (`Cls.x = ...`, `type(self).x = ...`);
+      * mutable default arguments."""
     bad = []
-    src = open(os.path.join(REPO, 'py4hw', 'rtl_generation.py'), encoding='utf-8').read()
-    tree = ast.parse(src)
-    glob = set()
+    try:
+        tree = ast.parse(open(os.path.join(REPO, rel), encoding='utf-8').read())
+    except OSError:
+        return ['%s is missing' % rel]
+    classes = {n.name for n in ast.walk(tree) if isinstance(n, ast.ClassDef)}
+    rebound = set()
+    for n in ast.walk(tree):
+        if isinstance(n, ast.Global): rebound |= set(n.names)
+    counts = {}
     for n in tree.body:
         if isinstance(n, (ast.Assign, ast.AnnAssign, ast.AugAssign)):
             for t in (n.targets if isinstance(n, ast.Assign) else [n.target]):
                 for x in ast.walk(t):
-                    if isinstance(x, ast.Name): glob.add(x.id)
+                    if isinstance(x, ast.Name):
+                        counts[x.id] = counts.get(x.id, 0) + (2 if isinstance(n, ast.AugAssign) else 1)
+                        val = getattr(n, 'value', None)
+                        if x.id not in allowed_globals and val is not None and not immutable_expr(val):
+                            bad.append('module-level name bound to a mutable object in %s: %s' % (rel, ast.unparse(n)[:80]))
+    for name in sorted(rebound | {k for k, c in counts.items() if c > 1}):
+        if name not in allowed_globals:
+            bad.append('module-level name %s of %s is re-bound at run time (global statement / assigned more than once)' % (name, rel))
+    for cls in [n for n in ast.walk(tree) if isinstance(n, ast.ClassDef)]:
+        for stmt in cls.body:
+            if isinstance(stmt, (ast.Assign, ast.AnnAssign)) and getattr(stmt, 'value', None) is not None and not immutable_expr(stmt.value):
+                bad.append('class attribute bound to a mutable object in %s: %s.%s' % (rel, cls.name, ast.unparse(stmt)[:60]))
+    for n in ast.walk(tree):
+        tg = n.targets if isinstance(n, ast.Assign) else [n.target] if isinstance(n, (ast.AugAssign, ast.AnnAssign)) else []
+        for t in tg:
+            for x in ast.walk(t):
+                if isinstance(x, ast.Attribute) and isinstance(x.ctx, ast.Store):
+                    v = x.value
+                    through_class = (isinstance(v, ast.Name) and v.id in classes) or \
+                                    (isinstance(v, ast.Call) and isinstance(v.func, ast.Name) and v.func.id == 'type') or \
+                                    (isinstance(v, ast.Attribute) and v.attr == '__class__')
+                    if through_class:
+                        bad.append('class attribute re-bound at run time in %s: %s' % (rel, ast.unparse(n)[:80]))
+    for fn in ast.walk(tree):
+        if isinstance(fn, (ast.FunctionDef, ast.AsyncFunctionDef, ast.Lambda)):
+            for d in fn.args.defaults + [k for k in fn.args.kw_defaults if k is not None]:
+                if not immutable_expr(d):
+                    bad.append('mutable default argument %s in %s of %s' % (ast.unparse(d)[:40], getattr(fn, 'name', 'lambda'), rel))
+    return bad
+
+
+def scan_state():
+    """fail-closed on process-lifetime MUTABLE state only (constant tables are fine): rtl_generation.py may keep exactly the two
+    cache globals of the model; VerilogGenerator exactly the attributes of the model; the transpiler and astutils nothing.
+    The live containers are in addition watched at run time (ProcState)."""
+    bad = scan_file('py4hw/rtl_generation.py', EXPECTED_GLOBALS)
+    tree = ast.parse(open(os.path.join(REPO, 'py4hw', 'rtl_generation.py'), encoding='utf-8').read())
+    glob = set()
     for n in ast.walk(tree):
         if isinstance(n, ast.Global): glob |= set(n.names)
     if glob != EXPECTED_GLOBALS:
-        bad.append('module-level state of rtl_generation.py is %s, the model has %s' % (sorted(glob), sorted(EXPECTED_GLOBALS)))
-    selfattrs, clears = set(), {}
+        bad.append('rtl_generation.py re-binds the module-level names %s, the model has %s' % (sorted(glob), sorted(EXPECTED_GLOBALS)))
+    selfattrs = set()
     for cls in [n for n in tree.body if isinstance(n, ast.ClassDef) and n.name == 'VerilogGenerator']:
         for fn in [m for m in cls.body if isinstance(m, ast.FunctionDef)]:
             for n in ast.walk(fn):
@@ -46,27 +112,10 @@ def scan_state():
                     for x in ast.walk(t):
                         if isinstance(x, ast.Attribute) and isinstance(x.value, ast.Name) and x.value.id == 'self' and isinstance(x.ctx, ast.Store):
                             selfattrs.add(x.attr)
-                for x in cls.body:
-                    pass
-        for stmt in cls.body:
-            if isinstance(stmt, (ast.Assign, ast.AnnAssign)):
-                bad.append('class-level attribute on VerilogGenerator: %s' % ast.unparse(stmt)[:80])
     if selfattrs != EXPECTED_SELF:
         bad.append('VerilogGenerator keeps %s on self, the model has %s' % (sorted(selfattrs), sorted(EXPECTED_SELF)))
-    tsrc = open(os.path.join(REPO, 'py4hw', 'transpilation', 'python2verilog_transpilation.py'), encoding='utf-8').read()
-    ttree = ast.parse(tsrc)
-    for n in ttree.body:
-        if isinstance(n, (ast.Assign, ast.AnnAssign, ast.AugAssign)):
-            bad.append('module-level variable in the transpiler: %s' % ast.unparse(n)[:80])
-        if isinstance(n, ast.ClassDef):
-            for stmt in n.body:
-                if isinstance(stmt, (ast.Assign, ast.AnnAssign)):
-                    for t in (stmt.targets if isinstance(stmt, ast.Assign) else [stmt.target]):
-                        if isinstance(t, ast.Name) and (n.name, t.id) not in EXPECTED_TRANSPILER_CLASS_ATTRS:
-                            bad.append('class-level attribute in the transpiler: %s.%s' % (n.name, t.id))
-    for n in ast.walk(ttree):
-        if isinstance(n, ast.Global):
-            bad.append('global statement in the transpiler: %s' % n.names)
+    bad += scan_file('py4hw/transpilation/python2verilog_transpilation.py')
+    bad += scan_file('py4hw/transpilation/astutils.py')
     return bad
 
 
@@ -121,15 +170,159 @@ def call_request(gen, op, obj, cs):
 
 
 def fresh_call(py4hw, R, root, op, obj, cs):
-    """the same request on a new generator in a cleared process state (module globals reset, restored afterwards)"""
-    saved = (R.wire_names_cache_obj, R.wire_names_cache)
-    R.wire_names_cache_obj = None; R.wire_names_cache = None
-    try:
+    """the same request on a new generator in a pristine process state: the cache globals and every process-lifetime container
+    of the py4hw modules (default-argument objects, class attributes) reset to their content before the first generation;
+    the history's state is put back afterwards"""
+    with ProcState.pristine(R):
         with quiet():
             g2 = py4hw.VerilogGenerator(root)
         return call_request(g2, op, obj, cs)
-    finally:
-        R.wire_names_cache_obj, R.wire_names_cache = saved
+
+
+class ProcState:
+    """Every mutable container that lives as long as the process inside the py4hw modules: default-argument objects of functions
+    and methods, class attributes, module-level containers.  Snapshot taken before this check generated anything; `pristine()`
+    puts all of them (and the two cache globals of rtl_generation) back to that content for the duration of a reference request
+    and restores the history's state afterwards; `leaks()` names the ones whose content is no longer the pristine one."""
+    slots = None            # [(label, container, pristine shallow copy)]
+
+    @classmethod
+    def start(cls):
+        if cls.slots is not None: return
+        import types
+        common.quiet_import()
+        out, seen = [], set()
+        def add(label, c):
+            if isinstance(c, (list, dict, set)) and id(c) not in seen:
+                seen.add(id(c)); out.append((label, c, type(c)(c)))
+        def fn_slots(label, f):
+            f = getattr(f, '__func__', f)
+            if isinstance(f, types.FunctionType):
+                for i, d in enumerate(f.__defaults__ or ()): add('%s default #%d' % (label, i), d)
+                for k, d in (f.__kwdefaults__ or {}).items(): add('%s default %s' % (label, k), d)
+        for mname, m in list(sys.modules.items()):
+            if m is None or not (mname == 'py4hw' or mname.startswith('py4hw.')): continue
+            for name, v in list(vars(m).items()):
+                if isinstance(v, type) and getattr(v, '__module__', None) == mname:
+                    for an, av in list(vars(v).items()):
+                        if an.startswith('__') and an != '__init__': continue
+                        add('%s.%s.%s' % (mname, name, an), av)
+                        fn_slots('%s.%s.%s' % (mname, name, an), av)
+                elif getattr(v, '__module__', None) == mname:
+                    fn_slots('%s.%s' % (mname, name), v)
+                elif not name.startswith('__'):
+                    if isinstance(v, (list, dict, set)) and mname.startswith(('py4hw.rtl_generation', 'py4hw.transpilation')):
+                        add('%s.%s' % (mname, name), v)
+        cls.slots = out
+
+    @staticmethod
+    def _set(c, content):
+        if isinstance(c, list): c[:] = content
+        else:
+            c.clear(); c.update(content)
+
+    @classmethod
+    def leaks(cls, only=('py4hw.rtl_generation', 'py4hw.transpilation')):
+        return [label for label, c, p0 in (cls.slots or []) if label.startswith(only) and
+                (len(c) != len(p0) or (isinstance(c, dict) and list(c.keys()) != list(p0.keys())) or (isinstance(c, list) and any(x is not y for x, y in zip(c, p0))))]
+
+    class pristine:
+        def __init__(self, R): self.R = R
+        def __enter__(self):
+            R = self.R
+            self.saved = (R.wire_names_cache_obj, R.wire_names_cache)
+            R.wire_names_cache_obj = None; R.wire_names_cache = None
+            self.cur = [(c, type(c)(c)) for _, c, _ in (ProcState.slots or [])]
+            for _, c, p0 in (ProcState.slots or []): ProcState._set(c, p0)
+        def __exit__(self, *a):
+            for c, cur in self.cur: ProcState._set(c, cur)
+            self.R.wire_names_cache_obj, self.R.wire_names_cache = self.saved
+
+
+class Pristine:
+    """The same request as the FIRST request of a fresh process, on a circuit rebuilt from its recipe: the literal
+    `on_fresh_generator` of Spec/C19.v.  A server process is forked before this check has generated anything (py4hw imported,
+    nothing called); every job runs in a fork of that server and dies, so no job sees what another one — or the history of the
+    main process — left in module globals, class attributes, default arguments or caches of any kind."""
+    jobs = results = None
+    pid = None
+    budget = 0              # forking the imported interpreter costs ~0.5 s: the jobs of a run are rationed
+
+    @classmethod
+    def start(cls):
+        if cls.pid is not None:
+            return
+        import pickle, atexit
+        common.quiet_import(); L.user_classes()
+        rj, wj = os.pipe(); rr, wr = os.pipe()
+        pid = os.fork()
+        if pid == 0:
+            os.close(wj); os.close(rr)
+            import gc
+            gc.collect(); gc.freeze(); gc.disable()      # children must not walk (and thereby copy) the whole imported heap
+            fin, fout = os.fdopen(rj, 'rb'), os.fdopen(wr, 'wb')
+            try:
+                while True:
+                    try:
+                        job = pickle.load(fin)
+                    except EOFError:
+                        break
+                    cr, cw = os.pipe()
+                    cpid = os.fork()
+                    if cpid == 0:
+                        os.close(cr)
+                        try:
+                            out = cls.run_job(job)
+                        except BaseException as ex:
+                            out = ('harness', '%s: %s' % (type(ex).__name__, str(ex)[:300]))
+                        with os.fdopen(cw, 'wb') as f:
+                            pickle.dump(out, f)
+                        os._exit(0)
+                    os.close(cw)
+                    with os.fdopen(cr, 'rb') as f:
+                        try:
+                            out = pickle.load(f)
+                        except EOFError:
+                            out = ('harness', 'the job process died')
+                    os.waitpid(cpid, 0)
+                    pickle.dump(out, fout); fout.flush()
+            finally:
+                os._exit(0)
+        os.close(rj); os.close(wr)
+        cls.pid, cls.jobs, cls.results = pid, os.fdopen(wj, 'wb'), os.fdopen(rr, 'rb')
+        atexit.register(cls.stop)
+
+    @classmethod
+    def stop(cls):
+        if cls.pid is None: return
+        try:
+            cls.jobs.close(); cls.results.close()
+            os.waitpid(cls.pid, 0)
+        except Exception:
+            pass
+        cls.pid = None
+
+    @classmethod
+    def ask(cls, job):
+        import pickle
+        pickle.dump(job, cls.jobs); cls.jobs.flush()
+        return pickle.load(cls.results)
+
+    @staticmethod
+    def run_job(job):
+        py4hw = common.quiet_import()
+        import py4hw.rtl_generation as R
+        c = L.build(job['family'], job['seed'])
+        for _ in range(job['edits']):
+            L.apply_edit(c)
+        objs = c.objs()
+        with quiet():
+            g = py4hw.VerilogGenerator(objs[job['root']])
+        cs = None
+        if job['pre'] is not None:
+            cs = [R.getVerilogModuleName(objs[x[1]]) if x[0] == 'path' else x[1] for x in job['pre']]
+        r = call_request(g, job['op'], None if job['path'] is None else objs[job['path']], cs)
+        return (r[0], L.canon(r[1]) if r[0] == 'ok' else r[1])
 
 
 def same(a, b):
@@ -345,7 +538,24 @@ class History:
                                     'got': res[1][:300] if res[0] == 'exc' else None, 'expected': res5[1][:300] if res5[0] == 'exc' else None,
                                     'first_difference': first_diff(res[1], res5[1]) if res[0] == res5[0] == 'ok' else None}); break
             if self.fail: break
-            # oracle 2: freshly built, never simulated copy of the circuit (other object identities)
+            # oracle 2: the request as the FIRST request of a fresh process, on the circuit rebuilt from its recipe
+            transpiled = res[0] == 'ok' and '// Code generated from' in res[1]
+            if Pristine.pid is not None and Pristine.budget > 0 and rng.random() < (.6 if transpiled else .04):
+                Pristine.budget -= 1
+                names = {R.getVerilogModuleName(o): pth for pth, o in objs.items()}
+                job = {'family': fams[ci], 'seed': cseeds[ci], 'edits': A[ci].edits, 'root': rootpath, 'path': path,
+                       'op': {k_: op[k_] for k_ in ('op', 'noinst', 'force')},
+                       'pre': None if pre is None else [('path', names[n_]) if n_ in self.inst_names and n_ in names else ('name', n_) for n_ in pre]}
+                res6 = Pristine.ask(job)
+                if res6[0] == 'harness':
+                    raise RuntimeError('pristine-process oracle failed: ' + res6[1])
+                mine = (res[0], L.canon(res[1]) if res[0] == 'ok' else res[1])
+                if mine != tuple(res6):
+                    self.violation('the answer differs from the same request made as the first request of a fresh process on the rebuilt circuit',
+                                   {'object': target.getFullPath(), 'got': res[1][:300] if res[0] == 'exc' else None,
+                                    'expected': res6[1][:300] if res6[0] == 'exc' else None,
+                                    'first_difference': first_diff(res[1], res6[1]) if res[0] == res6[0] == 'ok' else None}); break
+            # oracle 2b: freshly built, never simulated copy in this process, pristine process state
             objsB = B[ci].objs()
             res3 = fresh_call(py4hw, R, objsB[rootpath], op, None if path is None else objsB[path],
                               None if pre is None else self.rename_list(pre, A[ci], B[ci]))
@@ -734,6 +944,8 @@ def run(ctx):
     ctx.cov['rule'] = ('obligations: theorems of Properties/C19.v; correspondence cases: requests of random histories on the real generator. '
                        'A request is distinct by (entry point, circuit family, default/explicit object, flags, createdStructures passed, type of the object); '
                        'non-trivial = it produced a non-empty text.  clk steps, model comparisons and canon cross-checks are counted as evaluations only')
+    Pristine.start(); ProcState.start()          # before this process has generated anything
+    Pristine.budget = 14 if ctx.quick else 150
     ctx.regen([])
     r = ctx.prove(['Properties/C19.v'])
     state_bad = scan_state()
@@ -762,6 +974,9 @@ def run(ctx):
         cm = canon_crosscheck(ctx, [s for s in samples if s] + ['wire w_b;\nwire [3:0] w_a;\nX_7f00aa11bb22 i_x(.a(w_a));\nY_deadbeef i(.a(w_b));\nX_7f00aa11bb22 j();\n'])
         if cm:
             ctx.violation(dict({'what': 'canon of py/props/c19_lib.py and canon of Spec/C19.v disagree'}, **cm), found_input=False); ok = False
+    leaks = ProcState.leaks()
+    ctx.notes['process_state'] = {'containers_watched': len(ProcState.slots or []), 'changed_by_generation': leaks, 'pristine_process_jobs': (14 if ctx.quick else 150) - Pristine.budget}
+    if leaks: state_bad = state_bad + ['generation left content in process-lifetime containers: %s' % leaks]
     if ok and (not r['ok'] or state_bad or tie_msg):
         # obligation or tie broken and the sweep above found no failing request: widen the search, then report
         wide = [('sim', 25, 24, False), ('edit', 25, 24, False)]
@@ -789,6 +1004,7 @@ def run(ctx):
 def replay(rp):
     """re-run the recorded history (deterministic in its seed) and report"""
     ctx = common.Ctx('C19', 'quick', 1)
+    Pristine.start(); ProcState.start(); Pristine.budget = 10 ** 6
     if rp.get('scenario') == 'platform':
         platform_builds(ctx)
         if ctx.violations:
